@@ -163,7 +163,7 @@ func main() {
 		r.Finish()
 	}
 
-	n := r.N(40000, 1000000)
+	n := r.N(40000, 600000)
 	r.Parallel(n, func(c *vk.Case) {
 		rng := c.Rng
 		isBech := rng.Chance(2, 3)
